@@ -337,7 +337,7 @@ class Sim:
 
     # -- operations -----------------------------------------------------------
     def op(self, op):
-        if self.dead:
+        if self.dead or self.ctx.out_of_time():
             return
         self.ops.append(op)
         try:
@@ -392,6 +392,12 @@ class Sim:
                     buckets.add("second-key-of-same-type-not-recognised-as-duplicate")
                 else:
                     buckets.add("other")
+        # attribution: the two known root causes can both explain one appended name; ask the tree under test
+        # which of them it actually has (two-line probes on fresh objects) and keep only those
+        known = {"multi-host-line-hostnames-mutated-while-iterating", "second-key-of-same-type-not-recognised-as-duplicate"}
+        present = self.defects_present()
+        if buckets & known and present and not (buckets & known) <= present:
+            buckets = (buckets - known) | present
         if not buckets:
             buckets.add("other")
         diff = [k for k in ("lookups", "keys", "saved") if before[k] != after[k]]
@@ -402,6 +408,31 @@ class Sim:
                 "loading file %d again changed %s; save() had %d lines, now %d; appended: %r"
                 % (i, diff, len(old), len(new), [(ns, t, b[-12:]) for ns, t, b in new[len(old) :]]),
             )
+
+    _present = None
+
+    def defects_present(self):
+        if Sim._present is None:
+            Sim._present = set()
+            k1, k2 = pool()["rsa1024"], pool()["rsa2048"]
+            for bucket, text in (
+                ("multi-host-line-hostnames-mutated-while-iterating", "x,y %s %s\n" % (k1[0], k1[1])),
+                ("second-key-of-same-type-not-recognised-as-duplicate", "x %s %s\nx %s %s\n" % (k1[0], k1[1], k2[0], k2[1])),
+            ):
+                p = os.path.join(self.dir, "probe")
+                with open(p, "w") as f:
+                    f.write(text)
+                hk = self.HostKeys()
+                hk.load(p)
+                hk.save(self.out + ".p1")
+                hk.load(p)
+                hk.save(self.out + ".p2")
+                with open(self.out + ".p1") as f1, open(self.out + ".p2") as f2:
+                    if f1.read() != f2.read():
+                        Sim._present.add(bucket)
+                for q in (p, self.out + ".p1", self.out + ".p2"):
+                    os.unlink(q)
+        return Sim._present
 
     def op_add(self, host, keyname):
         typ, kb, pk = pool()[keyname]
